@@ -4,7 +4,6 @@
 package probe
 
 import (
-	"errors"
 	"fmt"
 	"sync"
 
@@ -39,6 +38,7 @@ const (
 	PStr
 	PRuntime
 	PNetErr
+	PStrErr // an error value that ALSO has a String() method (stringer-generated error enums): still an error
 )
 
 type Beh struct {
@@ -63,7 +63,7 @@ func (b Beh) Coq() string {
 		return fmt.Sprintf("(BClose %d)", b.ID)
 	}
 	switch b.PKind {
-	case PErr:
+	case PErr, PStrErr:
 		return fmt.Sprintf("(BPanic (PErr %d))", b.ID)
 	case PStr:
 		return fmt.Sprintf("(BPanic (PStr %d))", b.ID)
@@ -77,6 +77,12 @@ func (b Beh) Coq() string {
 type IDErr struct{ ID int }
 
 func (e *IDErr) Error() string { return fmt.Sprintf("iderr-%d", e.ID) }
+
+// StrErr is an error that is also a fmt.Stringer.
+type StrErr struct{ ID int }
+
+func (e *StrErr) Error() string  { return fmt.Sprintf("strerr-%d", e.ID) }
+func (e *StrErr) String() string { return fmt.Sprintf("StrErr(%d)", e.ID) }
 
 type NetErr struct {
 	ID int
@@ -153,12 +159,19 @@ func (v *Values) Classify(err error) int {
 			return 2
 		}
 	}
-	// runtime errors are errors too: identity preserved
+	// an error that merely carries the TEXT of an error some probe raised (its Error() or String()), without being
+	// that value: the panic value's identity was lost on the way
 	for _, r := range v.Raised {
-		if r == nil && errors.Is(err, err) {
-			return 1
+		if e, ok := r.(error); ok && e != err {
+			if e.Error() == err.Error() {
+				return 4
+			}
+			if st, isS := r.(fmt.Stringer); isS && st.String() == err.Error() {
+				return 4
+			}
 		}
 	}
+	// runtime errors and errors the library or the mock transport created themselves: nothing to compare them with
 	return 1
 }
 
@@ -212,6 +225,8 @@ func (p *Probe) on(kind int, ctx netty.HandlerContext, arg interface{}) {
 		switch b.PKind {
 		case PErr:
 			panic(p.Vals.raise(&IDErr{b.ID}))
+		case PStrErr:
+			panic(p.Vals.raise(&StrErr{b.ID}))
 		case PStr:
 			panic(p.Vals.raise(fmt.Sprintf("panic-string-%d", b.ID)))
 		case PRuntime:
